@@ -299,7 +299,7 @@ func init() {
 		if e.Thorough() {
 			nj = 8000
 		}
-		var heldH interface{ }
+		var heldH interface{}
 		heldCopy, heldDesc := "", ""
 		for i := 0; i < nj; i++ {
 			v := c20genJSON(e.Rng, 3)
